@@ -124,7 +124,7 @@ struct Gen
                 maxB = 65559;
                 break;
             case 8:
-                maxB = rng.range(25, 300);
+                maxB = rng.chance(1, 2) ? rng.range(25, 300) : 24 + (1LL << rng.range(0, 15));  // (max - 24) a power of two
                 break;
             default:
                 maxB = rng.range(25, 2000);
